@@ -5,7 +5,8 @@ Space  : the correlation family K of DESIGN.md section 4 (table size x spacing
          table supplied in every order (N <= 4: all N!, else sorted, reversed,
          all rotations, even-odd interleave) through ThermochemRawData (list
          order), ThermochemIncomplete and ThermochemGroup (dict insertion
-         order); plus every group of every shipped library.
+         order), and a ThermochemGroup assembled by update() (table first,
+         reference values merged later); Cp also for float and integer arrays; plus every group of every shipped library.
 Oracle : knots reproduced; reference values returned at T_ref; T*H/RT and S/R
          differences equal the integrals of the correlation's own Cp/R (held at
          the end values outside the table) computed by an independent
@@ -136,6 +137,12 @@ def build(cls_name, H, S, Ts, Cps, Tref, rng, order):
     Cp_o = [Cps[i] for i in order]
     if cls_name == 'RawData':
         return ThermochemRawData(H, S, Ts_o, Cp_o, T_ref=Tref, range=rng)
+    if cls_name == 'Merged':
+        # the table first, the reference values merged in afterwards
+        k = ThermochemGroup(None, None, dict(zip(Ts_o, Cp_o)), Tref, rng)
+        k.update(ThermochemGroup(H, None, {}, Tref, rng))
+        k.update(ThermochemGroup(None, S, {}, Tref, rng))
+        return k
     cls = ThermochemIncomplete if cls_name == 'Incomplete' else ThermochemGroup
     return cls(H, S, dict(zip(Ts_o, Cp_o)), Tref, rng)
 
@@ -269,7 +276,7 @@ def run_K(R, N, spacing, shape, pl, tier, only=None):
                 R.nontrivial += 1
             R.sample(dict(desc, Ts=Ts[:4], Cps=Cps[:4], T_ref=Tref), limit=2)
             base = {}
-            for cls_name in ('RawData', 'Incomplete', 'Group'):
+            for cls_name in ('RawData', 'Incomplete', 'Group', 'Merged'):
                 try:
                     k = build(cls_name, H, S, Ts, Cps, Tref, rng, list(range(N)))
                 except Exception as e:   # noqa
@@ -288,6 +295,28 @@ def run_K(R, N, spacing, shape, pl, tier, only=None):
                                 '%s %s: %s' % (cls_name, desc, detail),
                                 dict(kind='K', desc=desc))
                 base[cls_name] = k
+                # array temperatures (float and integer dtype) agree with scalars
+                import numpy as np
+                lo_, hi_ = rng if rng is not None else (Ts[0], Ts[-1])
+                ints = sorted(set(float(int(t)) for t in Ts + [lo_ + 1, hi_ - 1, Tref]
+                                  if lo_ <= int(t) <= hi_))
+                if ints and cls_name != 'Merged':
+                    R.evals += 1
+                    try:
+                        sc = [float(k.get_CpoR(t)) for t in ints]
+                        af = [float(x) for x in k.get_CpoR(np.array(ints, dtype=float))]
+                        ai = [float(x) for x in k.get_CpoR(np.array(ints, dtype=int))]
+                        okarr = all(rel(a, b) < 1e-12 and rel(c_, b) < 1e-12
+                                    for a, c_, b in zip(af, ai, sc))
+                        det = 'scalar %r, float array %r, int array %r' % (sc[:3], af[:3], ai[:3])
+                    except Exception as e:    # noqa
+                        okarr, det = False, '%s: %s' % (type(e).__name__, e)
+                    R.outcomes['array-T:%s' % ('same' if okarr else 'differs')] += 1
+                    if not okarr:
+                        R.violation('array-temperatures:%s' % cls_name,
+                                    '%s %s: Cp/R for an array of temperatures differs '
+                                    'from the scalar calls: %s' % (cls_name, desc, det),
+                                    dict(kind='K', desc=desc))
             # supply orders
             sg = small_grid(Ts, Tref, rng)
             ref = None
